@@ -196,12 +196,12 @@ class LangServer:
         self.root_path = path_from_uri(
             params.get("rootUri") or params.get("rootPath") or ""
         )
+        self._load_config_file()
         # The root is the default source directory, not an addition to the ones
-        # given with --source_dirs (the configuration file already works this way)
+        # given with --source_dirs or in the configuration file; an empty list
+        # in either place means "not specified"
         if not self.source_dirs:
             self.source_dirs.add(self.root_path)
-
-        self._load_config_file()
         update_recursion_limit(self.recursion_limit)
         self._resolve_globs_in_paths()
         self._config_logger(request)
